@@ -189,8 +189,9 @@ def unit_mark_unsaved(already):
     return run
 
 
-def unit_setattr(kind):
+def unit_setattr(kind0):
     def run(ctx):
+        kind = kind0
         ctx.fn(MODULE, 'TorConfig.__setattr__')
         import txtorcon.torconfig as tc
         ex = ctx.ex
@@ -199,11 +200,20 @@ def unit_setattr(kind):
         name = z3.String('name')
         ctx.input('name', VStr(name))
         path.assume(F_lower_ne_hidden(name))
-        parser = {'string': tc.String(), 'boolean': tc.Boolean(), 'linelist': tc.LineList(), 'portlist': tc.String()}[kind]
+        parser = {'string': tc.String(), 'boolean': tc.Boolean(), 'linelist': tc.LineList(), 'portlist': tc.String(),
+                  'portlist_from_tracked': tc.String()}[kind]
         path.heap[('dict', path.heap[('f', cfg.oid, 'parsers')].did)] = ((VStr(name), VConc(parser)),)
+        tracked_for = None
+        if kind == 'portlist_from_tracked':
+            kind = 'portlist'
+            tracked_for = VTuple([VConc('partial'), VOpaque('bound_mark_unsaved', 1), VStr(z3.String('other_option'))])
         if kind in ('linelist', 'portlist'):
             # ('portlist': a list-valued option whose parser does not wrap, e.g. SocksPort / ORPort with the String parser)
             value = ex.new_list(path, [VStr(z3.String('e0')), VStr(z3.String('e1'))])
+            if tracked_for is not None:
+                # the assigned value is itself a tracked list - the one read from another option (cfg.A = cfg.B)
+                path.assume(z3.String('other_option') != name)
+                path.heap[('g', 'tracked', value.lid)] = tracked_for
         elif kind == 'boolean':
             value = VBool(z3.Bool('flag'))
         else:
@@ -231,6 +241,13 @@ def unit_setattr(kind):
                 ctx.oblige('post.list_assignment_is_tracked_with_its_elements', p,
                            B(items is not None and len(items) == 2 and ('g', 'tracked', v.lid) in p.heap),
                            clause='including mutating list-valued options in place (the assigned list is a tracked list)')
+                if items is not None and ('g', 'tracked', v.lid) in p.heap:
+                    who = p.heap[('g', 'tracked', v.lid)]
+                    mine = (isinstance(who, VTuple) and len(who.items) == 3 and isinstance(who.items[2], VStr))
+                    ctx.oblige('post.tracked_list_reports_changes_for_this_option', p,
+                               zand(B(v.lid != value.lid), who.items[2].t == name) if mine else B(False),
+                               clause='an in-place change of the assigned list marks *this* option pending (its own tracked list, '
+                                      'not one that reports to another option)')
     return run
 
 
@@ -243,7 +260,7 @@ def units():
     out = [('C10/save/%s' % s, unit_save(s)) for s in ('nothing', 'scalar', 'list2', 'scalar_list', 'list_scalar', 'emptied', 'emptied_scalar')]
     out += [('C10/_save_completed', unit_save_completed()), ('C10/mark_unsaved/new', unit_mark_unsaved(False)),
             ('C10/mark_unsaved/already_pending', unit_mark_unsaved(True))]
-    out += [('C10/__setattr__/%s' % k, unit_setattr(k)) for k in ('string', 'boolean', 'linelist', 'portlist')]
+    out += [('C10/__setattr__/%s' % k, unit_setattr(k)) for k in ('string', 'boolean', 'linelist', 'portlist', 'portlist_from_tracked')]
     return out
 
 
